@@ -3,6 +3,7 @@ pub mod exec;
 pub mod gen;
 pub mod obj;
 pub mod ops2;
+pub mod oracle;
 pub mod probes;
 pub mod rng;
 pub mod simrt;
